@@ -262,3 +262,35 @@ Definition tucker_to_tensor (core : tensor F) (fs : list (tensor F)) : res (tens
   multi_mode_dot core fs 0 None false.
 
 End M.
+
+(* ---------------------------------------------------------------- tt_tensor.py: validate_tt_rank(allow_overparametrization=False)
+   for list ranks, as the code is, and the ranks TT-SVD realises (see Proofs/SvdDecompValidate.v) *)
+(* the loop of the code: for i, s in enumerate(shape[:-1]): min(rank[i] * s, prod(shape[i+1:]), rank[i+1]);
+   rl = rank[i] (the REQUESTED left rank), ranks = rank[i+1:] *)
+Fixpoint strict_body_code (sizes : list nat) (rl : nat) (ranks : list nat) : list nat :=
+  match sizes with
+  | [] => []
+  | s :: rest =>
+    match rest with
+    | [] => []
+    | _ :: _ => Nat.min (rl * s) (Nat.min (prod rest) (hd 1 ranks)) :: strict_body_code rest (hd 1 ranks) (tl ranks)
+    end
+  end.
+Definition validate_tt_rank_strict_code (shape rank : list nat) : list nat :=
+  1 :: strict_body_code shape (hd 1 rank) (tl rank) ++ [1].
+
+(* the bonds TT-SVD realises: the left factor is the bond obtained at the previous step *)
+Fixpoint realised_body (sizes : list nat) (rk : nat) (ranks : list nat) : list nat :=
+  match sizes with
+  | [] => []
+  | s :: rest =>
+    match rest with
+    | [] => []
+    | _ :: _ => let r := Nat.min (rk * s) (Nat.min (prod rest) (hd 1 ranks)) in r :: realised_body rest r (tl ranks)
+    end
+  end.
+Definition realised_tt_rank (shape rank : list nat) : list nat := 1 :: realised_body shape 1 (tl rank) ++ [1].
+
+(* the repaired rule (n_row = validated_rank[i] * s) is by construction the realised rank *)
+Definition validate_tt_rank_strict_fixed := realised_tt_rank.
+
